@@ -67,7 +67,13 @@ PROPS = {
         # the model of Update *is* the keymap the property speaks of: a state that differs from
         # it after a key sequence is a key that did not do what the keymap says
         "correspondence_is_failure": {"ui": True},
-        "groups": [{"name": "C07", "quick": 400, "thorough": 12000, "workers": 16}],
+        "groups": [{"name": "C07", "quick": 240, "thorough": 12000, "workers": 12},
+                   # the same worlds in processes started with other preload amounts (the default is 5):
+                   # nothing preloaded, one, two, more than any thread or listing holds
+                   {"name": "C07", "quick": 24, "thorough": 1500, "workers": 2, "config": "[network]\npreload_amount = 0\n"},
+                   {"name": "C07", "quick": 24, "thorough": 1500, "workers": 2, "config": "[network]\npreload_amount = 1\n"},
+                   {"name": "C07", "quick": 24, "thorough": 1500, "workers": 2, "config": "[network]\npreload_amount = 2\n"},
+                   {"name": "C07", "quick": 24, "thorough": 1500, "workers": 2, "config": "[network]\npreload_amount = 12\ncache_size = 3\n"}],
         "rule": "worlds over the TLS simulator: a thread of 1..8 notes (plain-text bodies containing URLs of other objects, so numbered links can be opened), a paged reply collection under the leaf (incl. an empty first page, comments answering another post, a missing collection), two actors on different hosts, multi-author posts (a foreign-host author turns the post into an error item), a paged outbox of 0..13 activities (some by another actor), an empty collection, a 404; started with Subcommand(open, <start>) and driven by 3..27 key tokens: j k g h l space c r a o p b, numbers followed by . / Enter / Esc / Backspace / another key (0, over-long numbers), :open <url>, :feed, bogus commands, arbitrary bytes, terminal resizes between keys and in the middle of typing (often one dimension only); "
                 "after every token (once loads have settled, detected through the shim) compared: mode, buffer, highlighted item, the window of items around the cursor, presence of frontier/children, base point; non-trivial = at least three tokens; distinct by op content",
         "trusted": ["crypto/tls, net; the Go scheduler (the check waits for quiescence; interleavings are C08's subject)",
